@@ -27,6 +27,7 @@ theorem floatOp_benign (op x y sp st c st') (h : floatOp op x y sp st = (.error 
     | (cases h; done)
     | (cases h; trivial)
     | (split at h <;> first | (cases h; done) | (cases h; trivial))
+    | (cases hp : goPow x y <;> rw [hp] at h <;> first | (cases h; done) | (cases h; trivial))
 
 theorem boolOp_benign (op x y st c st') (h : boolOp op x y st = (.error c, st')) : Benign c := by
   cases op <;> first | (cases h; done) | (cases h; trivial)
